@@ -1377,6 +1377,8 @@ class UnitQuaternion(Quaternion):
         assert base.isvector(w, 3), 'w must be a 3-vector'
         w = base.getvector(w)
         theta = base.norm(w)
+        if base.iszerovec(w):
+            return cls()  # zero rotation vector is the identity
         s = math.cos(theta / 2)
         v = math.sin(theta / 2) * base.unitvec(w)
         return cls(s=s, v=v, check=False)
